@@ -343,6 +343,83 @@ def attribute_vs_item_on_container_subclasses(col):
                               % (short(mk()), ', ignore_missing=True' if ignore else '', desc, got if not got.ok else 'returned', _attr_state(t), want), None)
 
 
+import collections as _coll  # noqa: E402
+
+
+class _TaggedDeque(_coll.deque):
+    pass
+
+
+class Shelf:
+    """a container class of the user's own (items AND attributes) that nobody registered: glom reads its plain segments with getattr,
+    so a plain segment addresses the ATTRIBUTE - for delete exactly as for access - while T[key] addresses the item"""
+    def __init__(self, label_, **items):
+        self._items = dict(items)
+        self.label = label_
+        self.note = 'n'
+
+    def __getitem__(self, k):
+        return self._items[k]
+
+    def __setitem__(self, k, v):
+        self._items[k] = v
+
+    def __delitem__(self, k):
+        del self._items[k]
+
+
+def _shelves():
+    import collections
+    s = Shelf('L', label='item-named-label', other='item-other')
+    dq = _TaggedDeque([1, 2, 3])
+    dq.label = 'dq-label'
+    ud = collections.UserDict(label='ud-item')
+    ud.label_attr = 'ud-attr'
+    return {'s': s, 'dq': dq, 'ud': ud, 'hs': [s, Shelf('L2')]}
+
+
+def _shelf_state(t):
+    return {'s': (sorted(t['s']._items.items()), sorted(k for k in t['s'].__dict__ if k != '_items')),
+            'dq': (list(t['dq']), sorted(t['dq'].__dict__)), 'ud': (sorted(t['ud'].data.items()), sorted(k for k in t['ud'].__dict__ if k != 'data')),
+            'hs1': sorted(k for k in t['hs'][1].__dict__ if k != '_items')}
+
+
+def unregistered_container_classes(col):
+    import collections
+    cases = [
+        ('plain segment = attribute (an item of that name exists)', lambda: 's.label', lambda t: delattr(t['s'], 'label')),
+        ('plain segment = attribute (no such item)', lambda: Path('s', 'note'), lambda t: delattr(t['s'], 'note')),
+        ('plain segment, attribute absent but an item of that name exists', lambda: 's.other', None),
+        ("T['key'] = item", lambda: T['s']['label'], lambda t: t['s'].__delitem__('label')),
+        ('T.attr = attribute', lambda: T['s'].label, lambda t: delattr(t['s'], 'label')),
+        ('plain segment on a deque subclass with an attribute', lambda: 'dq.label', lambda t: delattr(t['dq'], 'label')),
+        ('T[index] on a deque subclass', lambda: T['dq'][0], lambda t: t['dq'].__delitem__(0)),
+        ('plain segment on a UserDict: attribute', lambda: 'ud.label_attr', lambda t: delattr(t['ud'], 'label_attr')),
+        ("T['key'] on a UserDict", lambda: T['ud']['label'], lambda t: t['ud'].__delitem__('label')),
+        ('plain segment behind a star', lambda: 'hs.*.label', lambda t: (delattr(t['hs'][0], 'label'), delattr(t['hs'][1], 'label'))),
+    ]
+    for desc, mk, edit in cases:
+        for ignore in (False, True):
+            t, twin = _shelves(), _shelves()
+            twin['hs'][0] = twin['s']
+            t['hs'][0] = t['s']
+            if edit is not None:
+                edit(twin)
+            got = call(delete, t, mk(), ignore_missing=ignore)
+            col.case(('unregistered-container', desc, ignore), True)
+            col.count('deletions_attempted')
+            col.count('attribute_vs_item_cases')
+            want = _shelf_state(twin)
+            if edit is None and not ignore:
+                if got.ok or not isinstance(got.exc, PathDeleteError) or _shelf_state(t) != want:
+                    col.violation('C12/unregistered-container-class:missing-not-PathDeleteError-or-modified', 'delete(.., %s) [%s]: %r ; now %s, expected unchanged %s'
+                                  % (short(mk()), desc, got, _shelf_state(t), want), None)
+                continue
+            if not got.ok or _shelf_state(t) != want:
+                col.violation('C12/unregistered-container-class:wrong-namespace', 'delete(.., %s%s) [%s]: %r ; now %s, plain Python (the attribute / item that the '
+                              'same path READS) gives %s' % (short(mk()), ', ignore_missing=True' if ignore else '', desc, got if not got.ok else 'returned', _shelf_state(t), want), None)
+
+
 def _holders2():
     d2 = AttrDict2({'x': 'item-x', 'y': 'item-y'})
     d2.x, d2.only_attr = 'attr-x', 'attr-only'
@@ -534,6 +611,7 @@ def run(ctx):
         attribute_vs_item_on_container_subclasses(col)
         second_level_container_subclasses(col, 24 if not ctx.thorough else 64)
         attributes_that_are_visible_but_not_deletable(col)
+        unregistered_container_classes(col)
         delete_runs_in_the_context_of_the_call(col)
         reused_delete_object(col, rng)
     for i in range(ctx.n(350, 3500)):
